@@ -14,6 +14,14 @@ def main():
     shutil.copytree(vlib.SPEC, wd)
     bad = 0
     for f in sorted(glob.glob(os.path.join(wd, "*.tla"))):
+        if f.endswith("Proof.tla"):
+            # proof modules EXTEND TLAPS (the proof system's own library): checked by tlapm, not by SANY
+            p = subprocess.run(["timeout", "600", "tlapm", "--cleanfp", os.path.basename(f)], cwd=wd, capture_output=True, text=True)
+            ok = "obligations proved" in (p.stdout + p.stderr) and "failed" not in (p.stdout + p.stderr)
+            print("tlapm", os.path.basename(f), "ok" if ok else "FAILED")
+            if not ok:
+                print((p.stdout + p.stderr)[-2000:]); bad += 1
+            continue
         p = subprocess.run(["tla-sany", os.path.basename(f)], cwd=wd, capture_output=True, text=True)
         ok = p.returncode == 0 and "Semantic errors" not in p.stdout and "Fatal errors" not in p.stdout and "Could not parse" not in p.stdout
         print("sany", os.path.basename(f), "ok" if ok else "FAILED")
